@@ -12,6 +12,7 @@ import (
 	"runtime"
 	"sort"
 	"strings"
+	"sync"
 	"testing"
 	"time"
 
@@ -156,6 +157,7 @@ var (
 	fRecheck = flag.Int("sim.recheck", 0, "re-execute every Nth run from its realised plan and compare hashes")
 	fKnown   = flag.String("sim.known", "", "known_findings.json: open findings steer a dedicated slice of runs")
 	fDumpMsg = flag.String("sim.dumpmsg", "", "print input and emissions of this message id")
+	fWall    = flag.Duration("sim.wall", 60*time.Second, "wall-clock limit for one world (watchdog)")
 	fBudget  = flag.Duration("sim.budget", 0, "stop starting new runs after this wall time")
 )
 
@@ -189,10 +191,60 @@ func openFinding(id string) bool {
 
 func runSeed(base uint64, i int) uint64 { return simrt.Mix(base, uint64(i)+1) }
 
+// watchdog: the simulator cannot take the baton away from a goroutine that
+// spins without ever reaching a scheduling point. If one world takes longer
+// than the wall limit, the stacks tell whether a goroutine of the program
+// under test is running: then it is reported as a cpu-spin violation of the
+// property being checked when that property is about staying alive (C08,
+// C09), else as an infrastructure problem; the process ends either way.
+var (
+	wdMu    sync.Mutex
+	wdStart time.Time
+	wdSeed  uint64
+	wdProp  string
+	wdPlan  string
+)
+
+func watchdog(limit time.Duration) {
+	for {
+		time.Sleep(time.Second)
+		wdMu.Lock()
+		start, seed, prop, plan := wdStart, wdSeed, wdProp, wdPlan
+		wdMu.Unlock()
+		if start.IsZero() || time.Since(start) < limit {
+			continue
+		}
+		buf := make([]byte, 1<<20)
+		n := runtime.Stack(buf, true)
+		var spinning string
+		for _, g := range strings.Split(string(buf[:n]), "\n\n") {
+			head := g
+			if i := strings.IndexByte(g, '\n'); i > 0 {
+				head = g[:i]
+			}
+			if (strings.Contains(head, "[running") || strings.Contains(head, "[runnable")) && stackInRepo(g) && !strings.Contains(g, "watchdog(") {
+				spinning = g
+				break
+			}
+		}
+		r := &Result{Prop: prop, Seed: seed, PlanFile: plan, Hash: "watchdog"}
+		if spinning != "" && (prop == "C08" || prop == "C09") {
+			r.Viol = []Violation{{Prop: prop, Rule: "cpu-spin", Sig: panicSig("x\n" + spinning), Detail: fmt.Sprintf("a goroutine of the program has been running for %v of wall time without reaching a scheduling point (an endless loop):\n%s", limit, clip(spinning, 2500))}}
+		} else {
+			r.Infra = []string{fmt.Sprintf("watchdog: world of seed %d did not finish within %v of wall time\n%s", seed, limit, clip(spinning, 1500))}
+		}
+		b, _ := json.Marshal(r)
+		fmt.Printf("SIMRESULT %s\n", b)
+		os.Stdout.Sync()
+		os.Exit(3)
+	}
+}
+
 func TestSim(t *testing.T) {
 	if *fProp == "" && *fReplay == "" {
 		t.Skip("no -sim.prop")
 	}
+	go watchdog(*fWall)
 	out := bufio.NewWriter(os.Stdout)
 	defer out.Flush()
 	emit := func(r *Result) {
@@ -270,7 +322,27 @@ func TestSim(t *testing.T) {
 
 func execPlan(t *testing.T, impl propImpl, p *Plan) *Result {
 	t0 := time.Now()
+	wdMu.Lock()
+	wdStart, wdSeed, wdProp = t0, p.Seed, p.Prop
+	wdPlan = ""
+	if *fOut != "" && !p.Replay {
+		// written before the run so that a hang leaves a replayable plan behind
+		wdPlan = fmt.Sprintf("%s/%s-%d.plan.json", *fOut, p.Prop, p.Seed)
+	}
+	wdMu.Unlock()
+	if wdPlan != "" && (p.Prop == "C08" || p.Prop == "C09") {
+		b, _ := json.Marshal(p)
+		os.WriteFile(wdPlan, b, 0o644)
+	}
+	defer func() {
+		wdMu.Lock()
+		wdStart = time.Time{}
+		wdMu.Unlock()
+	}()
 	r := impl.exec(t, p)
+	if wdPlan != "" && (p.Prop == "C08" || p.Prop == "C09") && len(r.Viol) == 0 && len(r.Infra) == 0 && !*fDump {
+		os.Remove(wdPlan)
+	}
 	r.Prop = p.Prop
 	r.Seed = p.Seed
 	r.Variant = p.Variant
@@ -282,7 +354,7 @@ func execPlan(t *testing.T, impl propImpl, p *Plan) *Result {
 
 func kernelConfig(p *Plan) simrt.Config {
 	return simrt.Config{Seed: p.Seed, Tape: p.Tape, Replay: p.Replay, Sched: p.Sched, PCTDepth: p.PCTDepth,
-		StarveName: p.StarveName, StarveSteps: p.StarveSteps, MapPerm: p.MapPerm, Trace: *fTrace, Debug: *fDebug}
+		StarveName: p.StarveName, StarveSteps: p.StarveSteps, MapPerm: p.MapPerm, Trace: *fTrace, Debug: *fDebug, MaxSteps: uint64(p.Cfg.Knobs["maxSteps"])}
 }
 
 func finish(w *World, p *Plan, r *Result) {
